@@ -589,6 +589,11 @@ impl<'a> Gen<'a> {
 /// Curated shapes: dissatisfiable fragments under every disjunction/threshold form, timelocks inside
 /// dissatisfactions (#895 class), hash dissatisfactions, K-typed combinators, mixed units.
 pub const SHAPES: &[&str] = &[
+    // one arm / one threshold child mixes lock units: the fragment as a whole fails the lift check
+    // while its other paths are ordinary spending paths
+    "or_i(and_v(v:@A,and_v(v:@AT,pk(@K))),pk(@K))",
+    "thresh(2,pk(@K),s:pk(@K),sln:@A,sln:@AT)",
+    "or_d(pk(@K),and_v(v:pk(@K),and_v(v:@O,@OT)))",
     "or_d(pk(@K),and_v(v:pk(@K),@O))",
     "andor(pk(@K),@O,pk(@K))",
     "and_v(v:pk(@K),or_d(pk(@K),@O))",
